@@ -102,7 +102,19 @@ def _bits(n):
     return out
 
 
+class _NoTruth:
+    """an array-like value: asking for its truth value raises (as numpy arrays with several elements do)"""
+
+    def __bool__(self):
+        raise ValueError("The truth value of an array with more than one element is ambiguous")
+
+    def __repr__(self):
+        return "<no-truth>"
+
+
 def _val(x):
+    if isinstance(x, _NoTruth):
+        return {"t": "untruth", "neg": False, "b": [], "bytes": [], "truth": False}
     d = {"t": "other", "neg": False, "b": [], "bytes": [], "truth": bool(x)}
     if x is True:
         d["t"] = "true"
@@ -226,7 +238,7 @@ def history(seed, hk, nops, maxpool=4):
                 call = lambda: f[k]
             elif op == "setbit":
                 k = _idx(rng, w)
-                v = rng.choice([0, 1, True, False, 0, 1, "x", "", None, 7] + OTHERS[3:8])
+                v = rng.choice([0, 1, True, False, 0, 1, "x", "", None, 7] + OTHERS[3:8] + [_NoTruth()])
                 e["ak"], e["a"] = _ixrec(k)
                 e["val"] = _val(v)
 
